@@ -86,7 +86,7 @@ def wiring_cross_check(ctx, report, status):
         for ev in m.cb_log:
             if ev[0] != "run":
                 continue
-            _, cb, _name, _scale, _sides = ev
+            _, cb, _name, _scale, _sides = ev[:5]
             exp = expected_calls(cbs[cb], rightflag)
             got = [[meth, side] for (meth, _t, side) in log[pos:pos + len(exp)]]
             pos += len(exp)
@@ -184,7 +184,27 @@ def mirror_case(report, left, right, pipe, dmin, dmax, label):
         report.fail("left_eq_mirror_right", f"{d['var']}:{trig}", case, d)
 
 
+def gen_multiscale_case(rng):
+    """a multiscale pipeline with validation; interval bounds that are not multiples of factor^num_scales"""
+    ns, f = rng.choice([(2, 2), (2, 2), (3, 2), (2, 3)])
+    base = f ** (ns - 1)
+    rows = rng.randrange(7, 10) * base - rng.randrange(0, base)
+    cols = rng.randrange(10, 13) * base - rng.randrange(0, base)
+    lo = -rng.choice([1, 2, 3]) * base + rng.choice([0, 1])
+    hi = rng.choice([1, 2, 3]) * base - rng.choice([0, 1])
+    left, right = pl.make_pair(rng, rows, cols, lo, hi, masks=rng.random() < 0.3)
+    pipe = {"matching_cost": {"matching_cost_method": rng.choice(["sad", "zncc", "census"]), "window_size": 3},
+            "disparity": {"disparity_method": "wta", "invalid_disparity": -9999}}
+    if rng.random() < 0.5:
+        pipe["filter"] = {"filter_method": "median", "filter_size": 3}
+    pipe["validation"] = {"validation_method": "cross_checking_accurate"}
+    pipe["multiscale"] = {"multiscale_method": "fixed_zoom_pyramid", "num_scales": ns, "scale_factor": f, "marge": rng.choice([0, 1])}
+    return left, right, pipe, lo, hi
+
+
 def gen_case(rng):
+    if rng.random() < 0.2:
+        return gen_multiscale_case(rng)
     rows, cols = rng.choice([(8, 12), (10, 14), (9, 16), (12, 10)])
     lo = rng.choice([-3, -2, -1, 0, 1])
     hi = lo + rng.choice([0, 1, 2, 3, 4])
